@@ -62,7 +62,44 @@ pub fn run_real(imp: Impl, text: &str, expected_tokens: Option<&[Tok]>, input: &
     if tree_has_cycle(parsed.get_root(), parsed.get_nodes()) {
         return Got::Rejected("parse-cyclic", String::new());
     }
-    fn go<D: GD>(d: &mut D, parsed: &garnish_lang_compiler::parse::ParseResult, input: &V, max_steps: usize) -> Got {
+    match imp {
+        Impl::Simple => run_parsed(&mut new_simple(), &parsed, input, max_steps),
+        Impl::Basic => run_parsed(&mut new_basic(), &parsed, input, max_steps),
+    }
+}
+
+/// lex + parse only (with the token check); Err = what to report instead of a run
+pub fn front_end(text: &str, expected_tokens: Option<&[Tok]>) -> Result<garnish_lang_compiler::parse::ParseResult, Got> {
+    let tokens = match lex_g(text) {
+        Err(p) => return Err(Got::Panic("lex", p.loc)),
+        Ok(Err(e)) => return Err(Got::Rejected("lex", e)),
+        Ok(Ok(t)) => t,
+    };
+    if let Some(toks) = expected_tokens {
+        let exp: Vec<String> = toks.iter().filter_map(|t| t.significant()).collect();
+        let act: Vec<String> = tokens
+            .iter()
+            .filter(|t| t.get_token_type() != TokenType::Whitespace)
+            .map(|t| if t.get_token_type() == TokenType::Subexpression { "\n\n".to_string() } else { t.get_text().clone() })
+            .collect();
+        if exp != act {
+            return Err(Got::Rejected("layout-merge", String::new()));
+        }
+    }
+    let parsed = match parse_g(&tokens) {
+        Err(p) => return Err(Got::Panic("parse", p.loc)),
+        Ok(Err(e)) => return Err(Got::Rejected("parse", e)),
+        Ok(Ok(p)) => p,
+    };
+    if tree_has_cycle(parsed.get_root(), parsed.get_nodes()) {
+        return Err(Got::Rejected("parse-cyclic", String::new()));
+    }
+    Ok(parsed)
+}
+
+/// build + run a parsed program on the given data object
+pub fn run_parsed<D: GD>(d: &mut D, parsed: &garnish_lang_compiler::parse::ParseResult, input: &V, max_steps: usize) -> Got {
+    {
         let b = match build_g(parsed, d) {
             Err(p) => return Got::Panic("build", p.loc),
             Ok(Err(e)) => return Got::Rejected("build", e),
@@ -82,10 +119,6 @@ pub fn run_real(imp: Impl, text: &str, expected_tokens: Option<&[Tok]>, input: &
             RunEnd::StepLimit => Got::StepLimit,
             RunEnd::Panic(p) => Got::Panic("run", p.loc),
         }
-    }
-    match imp {
-        Impl::Simple => go(&mut new_simple(), &parsed, input, max_steps),
-        Impl::Basic => go(&mut new_basic(), &parsed, input, max_steps),
     }
 }
 
